@@ -465,7 +465,7 @@ func init() {
 	Register(Spec[c17Case]{
 		ID: "C17", Suite: "pairs", CoqImports: imports,
 		CoqType: "Check.C17.desc_in * Check.C17.desc_in * string * list string", CoqRun: "Check.C17.run",
-		Quick: 2000, Thorough: 120000, Parallel: 8,
+		Quick: 2000, Thorough: 60000, Parallel: 8,
 		Corpus: func() []c17Case {
 			return []c17Case{
 				{A: c17Desc{"video/H264", 90000, 0, "packetization-mode=1;profile-level-id=42e01f"},
